@@ -160,4 +160,14 @@ def run(facts, rep, tier, ctx):
             c09.relative_join_rules(facts, A, wa, rule="R03.5j")
     except ImportError:
         rep.note("overlay rules (C09) not available yet")
+    # R03.7 the embedded view is a tree by construction of its index (every ancestor of every file is registered, R18.5): that
+    # holds for what the observers report only while they answer from the index and nothing else
+    if any(b.impl and b.impl["self_ty"].startswith("impls::embedded::") for b in facts.bodies):
+        from . import c18
+        from ..report import Report as _Rep
+        scr = _Rep("z")
+        c18.run(facts, scr, "quick", ctx)
+        for o in scr.obligations:
+            if o["rule"] in ("R18.3", "R18.5"):
+                rep.ob("R03.7", o["fn"], o["key"].split("|")[2], o["ok"], o["detail"], o["loc"])
     rep.assume("removal of the root itself is excluded by the property")
